@@ -730,7 +730,6 @@ class RTCSctpTransport(AsyncIOEventEmitter):
         self._t2_chunk: Optional[Chunk] = None
         self._t2_failures = 0
         self._t2_handle: Optional[asyncio.TimerHandle] = None
-        self._reconfig_failures = 0
         self._reconfig_handle: Optional[asyncio.TimerHandle] = None
         self._t3_handle: Optional[asyncio.TimerHandle] = None
 
@@ -1606,10 +1605,7 @@ class RTCSctpTransport(AsyncIOEventEmitter):
             return
 
         # the request or its response was lost, send the same request again
-        self._reconfig_failures += 1
-        if self._reconfig_failures > SCTP_MAX_ASSOCIATION_RETRANS:
-            return
-        self.__log_debug("x RE-CONFIG timer expired %d", self._reconfig_failures)
+        self.__log_debug("x RE-CONFIG timer expired")
         asyncio.ensure_future(self._send_reconfig_param(self._reconfig_request))
         self._reconfig_handle = self._loop.call_later(
             self._rto, self._reconfig_timer_expired
@@ -1617,7 +1613,6 @@ class RTCSctpTransport(AsyncIOEventEmitter):
 
     def _reconfig_timer_start(self) -> None:
         self._reconfig_timer_cancel()
-        self._reconfig_failures = 0
         self._reconfig_handle = self._loop.call_later(
             self._rto, self._reconfig_timer_expired
         )
